@@ -104,9 +104,25 @@ pub fn explore<T: Sys>(sys: &T, max_states: usize) -> Stats {
         }
     }
     let mut out: Vec<(T::S, Tick)> = vec![];
+    // slack of a state = min over checked tasks of (bound - oldest pending age); successors are
+    // pushed in order of decreasing slack, so the depth-first search follows the most aged job
+    // first and reaches a violation (if there is one) without first flooding the visited set.
+    // The order has no influence on which states are visited in a violation-free system.
+    let slack = |s: &T::S| -> i64 {
+        (0..sys.ntasks())
+            .filter_map(|i| match (sys.bound(i), sys.oldest_age(s, i)) {
+                (Some(b), Some(a)) => Some(b as i64 - a as i64),
+                _ => None,
+            })
+            .min()
+            .unwrap_or(i64::MAX)
+    };
     while let Some(s) = stack.pop() {
         out.clear();
         sys.succ(&s, &mut out, &mut st.caps);
+        if out.len() > 1 {
+            out.sort_by_cached_key(|(n, _)| std::cmp::Reverse(slack(n)));
+        }
         for (n, l) in out.drain(..) {
             st.transitions += 1;
             if l.end == End::Complete {
@@ -114,6 +130,15 @@ pub fn explore<T: Sys>(sys: &T, max_states: usize) -> Stats {
                     let t = t as usize;
                     if l.resp > st.max_resp[t] {
                         st.max_resp[t] = l.resp;
+                    }
+                    // a completion later than the bound (the state invariant alone would miss
+                    // a bound of 0, where the job is never pending at a tick boundary)
+                    if let Some(b) = sys.bound(t) {
+                        if l.resp > b {
+                            st.violation = Some((t, l.resp));
+                            st.states = seen.len();
+                            return st;
+                        }
                     }
                 }
             }
@@ -151,7 +176,7 @@ pub enum Goal {
 /// back to depth-first order, which reaches the goal as quickly as the exploration did — the trace
 /// is then valid but not shortest.
 pub fn find_trace<T: Sys>(sys: &T, goal: Goal, max_states: usize) -> Option<(T::S, Vec<Tick>)> {
-    find_trace_order(sys, goal, max_states.min(1_500_000), true)
+    find_trace_order(sys, goal, max_states.min(300_000), true)
         .or_else(|| find_trace_order(sys, goal, max_states, false))
 }
 
@@ -186,9 +211,29 @@ fn find_trace_order<T: Sys>(
         out.clear();
         let s = nodes[si].0.clone();
         sys.succ(&s, &mut out, &mut caps);
+        if !breadth_first && out.len() > 1 {
+            // same heuristic as `explore`: follow the most aged job first
+            let slack = |s: &T::S| -> i64 {
+                (0..sys.ntasks())
+                    .filter_map(|i| match (sys.bound(i), sys.oldest_age(s, i)) {
+                        (Some(b), Some(a)) => Some(b as i64 - a as i64),
+                        _ => None,
+                    })
+                    .min()
+                    .unwrap_or(i64::MAX)
+            };
+            out.sort_by_cached_key(|(n, _)| std::cmp::Reverse(slack(n)));
+        }
         for (n, l) in out.drain(..) {
             let hit = match goal {
-                Goal::Violation => violates(sys, &n).is_some(),
+                Goal::Violation => {
+                    violates(sys, &n).is_some()
+                        || (l.end == End::Complete
+                            && l.ran
+                                .and_then(|t| sys.bound(t as usize))
+                                .map(|b| l.resp > b)
+                                .unwrap_or(false))
+                }
                 Goal::Resp { task, resp } => {
                     l.end == End::Complete && l.ran == Some(task as u8) && l.resp == resp
                 }
